@@ -468,3 +468,12 @@ Proof.
   - destruct (lookup (w_fs w) p) eqn:E; inversion H; subst; cbn; repeat split; auto.
   - inversion H; subst; cbn. repeat split; auto.
 Qed.
+
+(** Forward form for the cases where the state is known. *)
+Lemma p_remove_dir_empty : forall w p,
+  p <> [] -> safe (w_fs w) p = true -> lookup (w_fs w) p = Some EDir -> has_child (w_fs w) p = false ->
+  p_remove_dir w p = (POk, mkW (fs_remove (w_fs w) p) (mkEv ORemoveDir p true :: w_tr w)).
+Proof.
+  intros w p Hp Hs Hl Hc. unfold p_remove_dir. destruct p as [|a p]; [congruence|].
+  remember (a :: p) as ap. unfold log, with_fs. cbn [w_fs w_tr]. rewrite Hs. cbn [negb]. rewrite Hl, Hc. reflexivity.
+Qed.
